@@ -13,7 +13,8 @@ Definition show_biterr (e : biterr) : string :=
   end.
 
 Inductive bitop :=
-| OpU (width n : N) | OpTo (bytes : N) | OpI32 (n : N) | OpUe | OpSe | OpB | OpSkip (n : N) | OpMore | OpFin | OpFinSei.
+| OpU (width n : N) | OpTo (bytes : N) | OpI32 (n : N) | OpUe | OpSe | OpB | OpSkip (n : N) | OpMore | OpFin | OpFinSei
+| OpReader (n : N).   (* BitReader::reader(): when byte-aligned, take up to n whole bytes through the borrowed inner reader *)
 
 Definition show_out {A} (f : A -> string) (x : out biterr A) : string :=
   match x with
@@ -45,6 +46,11 @@ Fixpoint run_bitops (ops : list bitop) (s : src) : list string :=
     | OpB => step _ (read_bool "x") (fun b => if b then "T" else "F")
     | OpSkip n => step _ (skip n "x") (fun _ => "ok")
     | OpMore => step _ (has_more_rbsp_data "x") (fun b => if b then "T" else "F")
+    | OpReader n =>
+        if (N.of_nat (length (bits s)) mod 8 =? 0)%N then
+          let k := N.min n (N.of_nat (length (bits s)) / 8) in
+          ("R:" ++ show_N k) :: run_bitops rest (set_bits s (skipn (8 * N.to_nat k) (bits s)))
+        else "R:unaligned" :: run_bitops rest s
     | OpFin => [show_out (fun _ => "ok") (finish_rbsp s)]
     | OpFinSei => [show_out (fun _ => "ok") (finish_sei_payload s)]
     end
